@@ -50,6 +50,27 @@ Theorem C09_restore_bisim : forall s s0 ops, length (wox s) = length (woy s) ->
 Proof. exact restore_bisim. Qed.
 Print Assumptions C09_restore_bisim.
 
+(** ---- which fields each Weaver method assigns is REGENERATED from weaver.py (Gen/WeaverFootprint.v: method_writes);
+     op_method / getf / writes / domain_methods / reshaping_methods / query_methods are defined at the top of
+     Proofs/FootprintProofs.v.  Deleting e.g. a reference update from a method breaks one of these obligations. ---- *)
+From Coq Require Import String.
+From TW Require Import Model.WeaverSpec Gen.WeaverFootprint Proofs.FootprintProofs.
+Open Scope string_scope.
+(** the model's step changes no field outside the footprint generated from the source of the corresponding method *)
+Theorem C09_frame_generated : forall s o s' r f, step s o = (s', r) -> writes (op_method o) f = false -> getf f s' = getf f s.
+Proof. exact frame_generated. Qed.
+Print Assumptions C09_frame_generated.
+
+Theorem C09_original_written_only_by_normalize : forall m ws, In (m, ws) method_writes ->
+  existsb (field_eqb FOX) ws || existsb (field_eqb FOY) ws = true -> m = "__init__" \/ m = "normalize_x" \/ m = "normalize_y".
+Proof. exact original_written_only_by_normalize. Qed.
+Print Assumptions C09_original_written_only_by_normalize.
+
+Theorem C09_queries_write_nothing : forall m, In m query_methods -> writes_of m = [].
+Proof. exact queries_write_nothing. Qed.
+Print Assumptions C09_queries_write_nothing.
+Close Scope string_scope.
+
 Example C09_example :
   match init (Some [qz 0; qz 1; qz 2; qz 4]) [qz 1; qz 3; qz 3; qz 0] with
   | Ok s0 =>
